@@ -518,6 +518,9 @@ spec!(
         p.push(PushIter(v.iter().copied())),
         arr_owned!(p, v, u8),
         arr_ref!(p, v, u8),
+        // a row handed over as the read item of a slice region (region-backed, then owned-borrowed)
+        { let mut t = <SliceRegion<MirrorRegion<u8>>>::default(); let i = flatcontainer::Push::push(&mut t, v); p.push(PushIter(flatcontainer::Region::index(&t, i))) },
+        { let b: <SliceRegion<MirrorRegion<u8>> as flatcontainer::Region>::ReadItem<'_> = flatcontainer::IntoOwned::borrow_as(v); p.push(PushIter(b)) },
     ],
     reserve(rp, vs): [],
 );
@@ -550,6 +553,7 @@ spec!(
         p.push(PushIter(v.iter())),
         p.push(v.iter().map(|s| s.as_str()).collect::<Vec<&str>>()),
         p.push(PushIter(v.iter().map(|s| s.as_str()))),
+        { let mut t = <SliceRegion<StringRegion>>::default(); let i = flatcontainer::Push::push(&mut t, v); p.push(PushIter(flatcontainer::Region::index(&t, i))) },
     ],
     reserve(rp, vs): [],
 );
@@ -852,5 +856,15 @@ spec!(
     dense: no, collapse_top: yes, presize: no, plain: no,
     byref(x): x.as_slice(),
     forms(p, v): [p.push(v.as_slice())],
+    reserve(rp, vs): [],
+);
+
+// rows of zero-sized cells: the per-cell index list is free, the row offsets are not
+spec!(
+    ColsUnitVec, "ColumnsRegion<MirrorRegion<()>,Vec<usize>>", ColumnsRegion<MirrorRegion<()>, Vec<usize>>,
+    clone: yes, serde: yes, heap: yes, resreg: yes, copy: yes, debug: yes,
+    dense: yes, collapse_top: no, presize: no, plain: yes,
+    byref(x): x,
+    forms(p, v): [p.push(v), p.push(v.clone()), p.push(v.as_slice()), p.push(PushIter(v.iter()))],
     reserve(rp, vs): [],
 );
